@@ -23,9 +23,32 @@ type sigMarker struct {
 	rcde     []bool
 	chain    []byte
 	content  interface{} // identity of the signed content (blob pointer)
-	nExtra   int         // extra junk ext-ids appended (changes the count)
-	genuine  bool        // false: signature bytes were corrupted after signing
-	variant  int         // distinguishes byte-different copies that verify alike (RCD-e recovery byte)
+}
+
+// extPart is one opaque external id of a signed entry: the timestamp salt, or the signature of
+// signer idx. The RCD external ids in between are concrete bytes. The external ids of an entry
+// are a real slice (len, indexing, copying work); fat103.Validate is modelled over its elements.
+type extPart struct {
+	m       *sigMarker
+	kind    string // "salt" | "sig"
+	idx     int    // signer index (kind "sig")
+	genuine bool   // false: signature bytes were altered so that it no longer verifies
+	variant int    // distinguishes byte-different signatures that verify alike (RCD-e recovery byte)
+}
+
+// fakeRCD: the RCD external id of test key i (type byte + key material; concrete bytes).
+func fakeRCD(i int, rcde bool) []byte {
+	n := 33
+	t := byte(0x01)
+	if rcde {
+		n, t = 65, 0x0e
+	}
+	b := make([]byte, n)
+	b[0] = t
+	for k := 1; k < n; k++ {
+		b[k] = byte(0x10 + i)
+	}
+	return b
 }
 
 // sprMarker: the third external id of a staking record made by vrt.MakeSPR (public key ||
@@ -78,25 +101,31 @@ func registerSigModel(ex *Explorer) {
 	I[vrtPath+".SignEntry"] = func(in *Interp, fn *ssa.Function, a []Value) Value {
 		ec := a[0].(*Cell)
 		ev := in.load(ec).(*StructVal) // ChainID, Hash, Timestamp, ExtIDs, Content
-		m := &sigMarker{salt: a[1].(*sym.Term), genuine: true}
+		m := &sigMarker{salt: a[1].(*sym.Term)}
 		ks := a[2].(SliceVal)
 		rs := a[3].(SliceVal)
+		u8 := types.Typ[types.Uint8]
+		corrupt := in.Branch(a[5].(*sym.Term))
+		ids := []Value{SliceVal{Ext: &extPart{m: m, kind: "salt", genuine: true}}}
 		for i := 0; i < ks.Len; i++ {
 			k := int(in.Concretize(in.sget(ks, i).(*sym.Term)))
 			r := in.Branch(in.sget(rs, i).(*sym.Term))
 			m.signers = append(m.signers, fakeKeyAddress(k, r))
 			m.rcde = append(m.rcde, r)
+			ids = append(ids, in.bytesToSlice(fakeRCD(k, r), u8),
+				SliceVal{Ext: &extPart{m: m, kind: "sig", idx: i, genuine: !(corrupt && i == 0)}})
 		}
-		m.nExtra = int(in.Concretize(a[4].(*sym.Term)))
-		if in.Branch(a[5].(*sym.Term)) {
-			m.genuine = false
+		nExtra := int(in.Concretize(a[4].(*sym.Term)))
+		for x := 0; x < nExtra; x++ {
+			ids = append(ids, in.bytesToSlice([]byte("junk"), u8))
 		}
 		if cc, ok := ev.F[0].(*Cell); ok && cc != nil {
 			m.chain, _ = in.arrayBytes(in.load(cc))
 		}
 		m.content = in.contentIdentity(ev.F[4])
 		nv := &StructVal{F: append([]Value{}, ev.F...)}
-		nv.F[3] = SliceVal{Ext: m}
+		et := ec.T.Underlying().(*types.Struct).Field(3).Type().Underlying().(*types.Slice).Elem()
+		nv.F[3] = in.sliceFrom(et, ids)
 		in.storeInto(ec, ec.T, nv)
 		return nil
 	}
@@ -158,17 +187,27 @@ func registerSigModel(ex *Explorer) {
 		ec := a[0].(*Cell)
 		ev := in.load(ec).(*StructVal)
 		ext, _ := ev.F[3].(SliceVal)
-		m, ok := ext.Ext.(*sigMarker)
-		if !ok || len(m.signers) == 0 {
+		if ext.Arr == nil || ext.Len < 3 {
 			in.fail("unsupported", "MalleateSig on an entry without modelled signatures")
 		}
-		nm := *m
-		nm.variant = m.variant + 1
-		if !m.rcde[0] {
-			nm.genuine = false
+		sigv, _ := in.sget(ext, 2).(SliceVal)
+		p, ok := sigv.Ext.(*extPart)
+		if !ok || p.kind != "sig" {
+			in.fail("unsupported", "MalleateSig on an entry without modelled signatures")
 		}
+		np := *p
+		np.variant = p.variant + 1
+		if !p.m.rcde[p.idx] {
+			np.genuine = false
+		}
+		ids := make([]Value, ext.Len)
+		for i := 0; i < ext.Len; i++ {
+			ids[i] = in.sget(ext, i)
+		}
+		ids[2] = SliceVal{Ext: &np}
 		nv := &StructVal{F: append([]Value{}, ev.F...)}
-		nv.F[3] = SliceVal{Ext: &nm}
+		et := ec.T.Underlying().(*types.Struct).Field(3).Type().Underlying().(*types.Slice).Elem()
+		nv.F[3] = in.sliceFrom(et, ids)
 		in.storeInto(ec, ec.T, nv)
 		return nil
 	}
@@ -184,19 +223,22 @@ func registerSigModel(ex *Explorer) {
 			nexp = len(expected.E)
 		}
 		ext, _ := e.F[3].(SliceVal)
-		m, isMarker := ext.Ext.(*sigMarker)
 		n := 0
-		if isMarker {
-			n = 1 + 2*len(m.signers) + m.nExtra
-		} else if ext.Arr != nil {
+		if ext.Arr != nil {
 			n = ext.Len
 		}
 		if nexp == 0 || n != 2*nexp+1 {
 			return in.newError("invalid number of ExtIDs")
 		}
-		if !isMarker {
-			// arbitrary third-party bytes: never a valid signature under ideal crypto
-			return in.newError("ExtIDs[1]: invalid signature (ideal model: bytes not produced by a key holder)")
+		var m *sigMarker
+		if sv, ok := in.sget(ext, 0).(SliceVal); ok {
+			if p, ok := sv.Ext.(*extPart); ok && p.kind == "salt" {
+				m = p.m
+			}
+		}
+		if m == nil {
+			// arbitrary third-party bytes: never a valid salt/signature under ideal crypto
+			return in.newError("ExtIDs[0]: timestamp salt: invalid (ideal model: bytes not produced by a key holder)")
 		}
 		ts := in.timeUnix(e.F[2])
 		diff := f.Sub(ts, m.salt)
@@ -214,9 +256,15 @@ func registerSigModel(ex *Explorer) {
 			b, _ := in.arrayBytes(me.K)
 			remaining[string(b)] = true
 		}
-		for i, s := range m.signers {
+		for i := 0; i < nexp; i++ {
+			rcdv, _ := in.sget(ext, 2*i+1).(SliceVal)
+			rcd, okr := in.sliceBytes(rcdv)
+			if rcdv.Ext != nil || !okr || len(rcd) == 0 {
+				return in.newError(fmt.Sprintf("ExtIDs[%d]: invalid RCD", 2*i+1))
+			}
+			rcde := rcd[0] == 0x0e
 			mask := int64(1) // R_ALL
-			if m.rcde[i] {
+			if rcde {
 				mask |= 4 // R_RCDe
 			} else {
 				mask |= 2 // R_RCD1
@@ -224,9 +272,14 @@ func registerSigModel(ex *Explorer) {
 			if flag&mask == 0 {
 				return in.newError(fmt.Sprintf("ExtIDs[%d]: rcd type is rejected by the validate mask", 2*i+1))
 			}
-			if !m.genuine || !same {
+			sigv, _ := in.sget(ext, 2*i+2).(SliceVal)
+			p, oks := sigv.Ext.(*extPart)
+			// the signature must be one made by the key of THIS rcd over THIS salt/chain/content
+			if !oks || p.kind != "sig" || p.m != m || !p.genuine || !same || p.idx >= len(m.signers) ||
+				string(fakeRCD(int(m.signers[p.idx][1]-0x10), m.rcde[p.idx])) != string(rcd) {
 				return in.newError(fmt.Sprintf("ExtIDs[%d]: invalid signature", 2*i+1))
 			}
+			s := m.signers[p.idx]
 			if !remaining[string(s)] {
 				return in.newError(fmt.Sprintf("ExtIDs[%d]: unexpected or duplicate RCD Hash", 2*i+1))
 			}
